@@ -208,9 +208,10 @@ Qed.
    an entry of an inline table (line = it is flattened into the key/value lines of a section), an array element *)
 Inductive ctx : Set := KRoot | KEntry | KElem | KPair (line : bool) | KArr.
 
-(* the condition Spec/WF.v puts on a table that is an entry of another table *)
+(* the condition Spec/WF.v puts on a table that is an entry of another table: it has a key/value line of its own
+   (a table made of dotted keys) / its [header] is written (a header table), or some header is written below it *)
 Definition vis_cond (sub : tbl) : Prop :=
-  if t_dotted sub then has_line sub = true else shown sub = true \/ prints_header sub = true.
+  if t_dotted sub then has_line sub = true \/ prints_header sub = true else shown sub = true \/ prints_header sub = true.
 
 Definition iwf (c : ctx) (it : item) : Prop :=
   match c with
@@ -250,10 +251,10 @@ Proof. reflexivity. Qed.
 Lemma prints_header_eq items d im dt p sp : prints_header (Tbl items d im dt p sp) = existsb gp items.
 Proof. reflexivity. Qed.
 
-(* the edited table is at least as visible as before *)
+(* the edited table is at least as visible as before: what it contributes to its parent (a line or a header) it
+   still contributes (a table made of dotted keys may trade its last line for a header below it) *)
 Definition Rt (a b : tbl) : Prop :=
-  t_dotted a = t_dotted b /\ t_implicit a = t_implicit b /\
-  (hl a = true -> hl b = true) /\ (ph a = true -> ph b = true \/ hl b = true).
+  t_dotted a = t_dotted b /\ t_implicit a = t_implicit b /\ (hl a || ph a = true -> hl b || ph b = true).
 Definition Ri (a b : item) : Prop :=
   match a, b with
   | ITable x, ITable y => Rt x y
@@ -265,19 +266,28 @@ Definition Ri (a b : item) : Prop :=
 Lemma Rt_refl a : Rt a a.
 Proof. repeat split; auto. Qed.
 
-Lemma vis_cond_keep a b : vis_cond a -> Rt a b -> vis_cond b.
+Lemma vis_cond_iff t : vis_cond t <-> hl t || ph t = true.
 Proof.
-  unfold vis_cond, Rt, hl, ph. intros Hc (Hd & Hi & H1 & H2). rewrite <- Hd.
-  destruct (t_dotted a) eqn:Da; simpl in *.
-  - rewrite <- Hd in *. simpl in *. auto.
-  - rewrite <- Hd in *. simpl in *.
-    assert (Hp : shown a || prints_header a = true) by (destruct Hc as [-> | ->]; [reflexivity|apply orb_true_r]).
-    destruct (H2 Hp) as [H|H]; [|discriminate].
-    apply orb_true_iff in H. exact H.
+  unfold vis_cond, hl, ph. destruct (t_dotted t); simpl; rewrite orb_true_iff; tauto.
 Qed.
+
+Lemma vis_cond_keep a b : vis_cond a -> Rt a b -> vis_cond b.
+Proof. intros Hc (_ & _ & H). apply vis_cond_iff. apply H. apply vis_cond_iff. exact Hc. Qed.
 
 Lemma shown_true t : has_line t = true -> shown t = true.
 Proof. unfold shown. intros ->. destruct (t_implicit t); reflexivity. Qed.
+
+(* what a table contributes to its parent, from its own flags and entries *)
+Lemma vis_items items d im dt p sp :
+  hl (Tbl items d im dt p sp) || ph (Tbl items d im dt p sp)
+  = (negb dt && negb im) || existsb (fun kv => gl kv || gp kv) items.
+Proof.
+  assert (E : existsb (fun kv => gl kv || gp kv) items = existsb gl items || existsb gp items).
+  { induction items as [|kv l IH]; [reflexivity|]. simpl. rewrite IH.
+    destruct (gl kv), (gp kv), (existsb gl l), (existsb gp l); reflexivity. }
+  rewrite E. unfold hl, ph, shown. simpl t_dotted. simpl t_implicit. rewrite has_line_eq, prints_header_eq.
+  destruct dt, im, (existsb gl items), (existsb gp items); reflexivity.
+Qed.
 
 (* one entry of a table replaced by an at-least-as-visible one *)
 Lemma Rt_items k F items items' d im dt p sp :
@@ -285,35 +295,13 @@ Lemma Rt_items k F items items' d im dt p sp :
   (forall k' i i', In (k', i) items -> F i = Some i' -> Ri i i') ->
   Rt (Tbl items d im dt p sp) (Tbl items' d im dt p sp).
 Proof.
-  intros E Hr.
-  assert (HL : has_line (Tbl items d im dt p sp) = true -> has_line (Tbl items' d im dt p sp) = true).
-  { rewrite !has_line_eq. intro He.
-    destruct (existsb_kv_upd gl gl False k F items items' E He (fun _ H => H)) as [H|[]]; [|exact H].
-    intros k' i i' Hin _ Fi G. left. specialize (Hr k' i i' Hin Fi). unfold gl in *. simpl in *.
-    destruct i as [|v|x|]; destruct i' as [|v'|y|]; simpl in Hr; try contradiction; try discriminate; auto.
-    destruct Hr as (_ & _ & H1 & _). auto. }
-  unfold Rt. simpl. repeat split; auto.
-  - unfold hl. simpl. destruct dt; simpl; auto.
-  - unfold ph, hl. simpl t_dotted. intro Hp.
-    assert (Hx : has_line (Tbl items' d im dt p sp) = true ->
-                 (negb dt && shown (Tbl items' d im dt p sp) || prints_header (Tbl items' d im dt p sp) = true)
-                 \/ dt && has_line (Tbl items' d im dt p sp) = true).
-    { intro Hh. destruct dt; simpl; [right; exact Hh|left]. rewrite (shown_true _ Hh). reflexivity. }
-    apply orb_true_iff in Hp as [Hp|Hp].
-    + apply andb_true_iff in Hp as [Hd Hs]. destruct dt; [discriminate|]. left. simpl.
-      unfold shown in *. simpl t_implicit in *. destruct im; simpl in *; [|reflexivity].
-      apply negb_true_iff in Hs. apply negb_false_iff in Hs. rewrite (HL Hs). reflexivity.
-    + rewrite prints_header_eq in Hp.
-      destruct (existsb_kv_upd gp gp (has_line (Tbl items' d im dt p sp) = true) k F items items' E Hp (fun _ H => H))
-        as [H|H].
-      * intros k' i i' Hin Hin' Fi G. specialize (Hr k' i i' Hin Fi). unfold gp in *. simpl in *.
-        destruct i as [|v|x|x sx]; destruct i' as [|v'|y|y sy]; simpl in Hr; try contradiction; try discriminate.
-        -- destruct Hr as (_ & _ & _ & H2). destruct (H2 G) as [H|H]; [left; exact H|right].
-           change (existsb gl items' = true). apply (existsb_In gl _ (k', ITable y) Hin'). exact H.
-        -- left. destruct x; [discriminate|]. destruct y; [exfalso; apply Hr; [discriminate|reflexivity]|reflexivity].
-      * left. rewrite <- prints_header_eq with (d := d) (im := im) (dt := dt) (p := p) (sp := sp) in H.
-        rewrite H. apply orb_true_r.
-      * apply Hx. exact H.
+  intros E Hr. unfold Rt. split; [reflexivity|]. split; [reflexivity|]. rewrite !vis_items. intro H.
+  apply orb_true_iff in H as [H|H]; [rewrite H; reflexivity|]. apply orb_true_iff. right.
+  destruct (existsb_kv_upd (fun kv => gl kv || gp kv) (fun kv => gl kv || gp kv) False k F items items' E H (fun _ H => H)) as [G|[]]; [|exact G].
+  intros k' i i' Hin _ Fi G. left. specialize (Hr k' i i' Hin Fi). unfold gl, gp in *. simpl in *.
+  destruct i as [|v|x|x sx]; destruct i' as [|v'|y|y sy]; simpl in Hr; try contradiction; try discriminate; auto.
+  - destruct Hr as (_ & _ & H1). auto.
+  - destruct x; [discriminate|]. destruct y; [exfalso; apply Hr; [discriminate|reflexivity]|reflexivity].
 Qed.
 
 (* -- inline tables in their context -- *)
